@@ -21,6 +21,10 @@ pub enum RbOp {
     SetInit(u16),
     /// The trait's `extend_from_slice` with this many bytes.
     Extend(u16),
+    /// ReadBuf's own `extend_from_slice` (all or nothing) with this many
+    /// bytes: whatever it answers, what the buffer exposes afterwards has to
+    /// stay inside its slot.
+    ExtendOwn(u16),
     /// Wrap in a `LimitedBuf` with this limit (scaled around the spare
     /// capacity), optionally `set_init` a fraction of what it exposes, unwrap.
     Limited { limit: u16, init: Option<u16> },
@@ -42,6 +46,7 @@ pub fn strategy() -> impl Strategy<Value = RbCase> {
         3 => any::<u16>().prop_map(RbOp::Truncate),
         3 => any::<u16>().prop_map(RbOp::SetInit),
         2 => (0u16..600).prop_map(RbOp::Extend),
+        2 => (0u16..600).prop_map(RbOp::ExtendOwn),
         3 => (any::<u16>(), proptest::option::of(any::<u16>())).prop_map(|(limit, init)| RbOp::Limited { limit, init }),
     ];
     (1u8..=3, prop_oneof![1 => 1u16..8, 4 => 1u16..=512], 0u8..4, prop_oneof![1 => Just(0u16), 1 => Just(u16::MAX), 6 => any::<u16>()], proptest::collection::vec(op, 0..10)).prop_map(|(pool_log2, buf_size, skip, fill, ops)| RbCase { pool_log2, buf_size, skip, fill, ops })
@@ -206,6 +211,20 @@ pub fn run(case: &RbCase, ctx: &mut Ctx) -> Result<Vec<&'static str>, String> {
                     shadow.extend_from_slice(&bytes[..copied]);
                     if copied == spare && spare > 0 {
                         classes.push("filled-exactly");
+                    }
+                }
+                RbOp::ExtendOwn(l) => {
+                    let bytes: Vec<u8> = (0..l as usize).map(|j| data_byte(700 + k, j)).collect();
+                    let spare = cap - shadow.len();
+                    let r = crate::runner::catch(|| buf.extend_from_slice(&bytes));
+                    match r {
+                        Ok(Ok(())) if bytes.len() <= spare => shadow.extend_from_slice(&bytes),
+                        Ok(Err(())) if bytes.len() > spare => {
+                            classes.push("growth-refused");
+                        }
+                        Ok(Ok(())) => return Err(format!("readbuf-bounds: {what}: {} bytes were appended to a buffer with {spare} spare bytes (capacity {cap}): it now claims {} bytes, beyond its slot", bytes.len(), Buf::len(&buf))),
+                        Ok(Err(())) => return Err(format!("readbuf-extend: {what}: appending {} bytes to a buffer with {spare} spare bytes was refused", bytes.len())),
+                        Err((msg, loc)) => return Err(format!("readbuf-extend: {what}: extend_from_slice panicked at {loc}: {msg}")),
                     }
                 }
                 RbOp::Limited { limit, init } => {
